@@ -6,7 +6,10 @@ continuation areas, boot catalog, UDF structures, file data) is listed with its 
 disjointness (two names may share sectors only when the specification says they are links to one content), that everything
 lies inside the declared volume size, and that the image length equals the declared size.  A recording output file checks
 that mastering writes no byte twice.
-Correspondence: the per-child cache (`extents_to_here`, `offset_to_here`) of every directory vs `nfScan`, the writer's
+Correspondence: after EVERY edit of every history the structure change is read off the object, turned into an op of the Lean
+machine Model/Iso, and the machine's prediction of every directory's data_length, both path-table reservations and the declared
+volume size is compared with the object (harness/isotie.py); new and reopened objects must satisfy the invariant `Inv`.
+Also: the per-child cache (`extents_to_here`, `offset_to_here`) of every directory vs `nfScan`, the writer's
 record placement vs `writerPlace`, `data_length` vs the growth/shrink rule, after every history.
 """
 import io
@@ -24,9 +27,10 @@ THEOREMS = ['Pycdlib.place_disjoint', 'Pycdlib.place_in_bounds', 'Pycdlib.place_
             'Pycdlib.Iso.space_exact', 'Pycdlib.Iso.dirs_covered', 'Pycdlib.Iso.path_tables_exact', 'Pycdlib.Iso.layout_sound',
             'Pycdlib.Iso.step_inv', 'Pycdlib.Iso.invB_iff', 'Pycdlib.Iso.init0_inv']
 PARTIAL = {
-    'space_exact_partial': 'declared size = end of the last object is proved for the sequential placement model and for the '
-    'per-directory bookkeeping; the composition over the whole edit-state machine (all object kinds, Rock Ridge continuation '
-    'blocks, UDF partition) is decided by the allocation oracle and the size correspondence, not yet by one theorem',
+    'space_exact_partial': 'Iso.space_exact proves declared size = from-scratch layout over EVERY history of the bookkeeping machine '
+    '(directories of both hierarchies, path tables, contents with hard links, continuation blocks as a count, PVD copies). Outside the '
+    'machine and decided by the allocation oracle per history: the UDF partition and its descriptors, the El Torito catalog, isohybrid '
+    'padding, and WHICH continuation block an entry lands in (the allocator inside a block is Susp.addEntry_disjoint, C08)',
 }
 TRUSTED = ['the independent reader finds every object the image uses (what it does not decode cannot be checked for overlap)']
 ASSUMPTIONS = []
@@ -36,9 +40,11 @@ LEVEL_TEXT = ('Lean 4 theorems for all inputs: sequential placement is pairwise 
               'by deltas always cover their records; incremental cache = from-scratch packing; ceiling_div tie regenerated from '
               'utils.py; the packing loop of dr.py and the path-table / space-size accounting of headervd.py are regenerated from the source on every '
               'run and proved equal to the model (dr_recalc_tie, add/remove_ptr_size_tie), and the path-table reservation is proved exact after '
-              'any history (run_exact). The whole-image statement is decided per generated history by the allocation oracle on the independent reader.')
+              'any history (run_exact). Iso.space_exact / dirs_covered / path_tables_exact / layout_sound: over every history of public edits (ISO9660 + Joliet + Rock Ridge records, '
+              'hard links, PVD copies) the declared size kept by deltas equals the from-scratch layout, which is pairwise disjoint and ends exactly there; tied per edit by predicting '
+              'every data_length, path table reservation and the volume size of the real object (isorun). UDF / El Torito / isohybrid parts of the layout are decided per history by the allocation oracle.')
 LEVEL_NOTE = 'Trusted: Lean kernel, reader completeness for allocation, generator coverage. See PARTIAL for the missing composition.'
-TECHNIQUE = 'Lean 4 proofs about packing/placement + independent-reader allocation oracle + cache correspondence'
+TECHNIQUE = 'Lean 4 invariant proof over the edit-state machine (space_exact) + translated kernels with tie lemmas + per-edit bookkeeping correspondence + independent-reader allocation oracle'
 
 
 class RecordingFile(io.BytesIO):
